@@ -108,7 +108,8 @@ def build(inst, resolved):
 
 
 def frame_sig(df):
-  return hashlib.sha256(df.to_csv().encode()).hexdigest()
+  # values, column types and index: an in-place type conversion of a column is a modification too
+  return hashlib.sha256((df.to_csv() + repr(list(df.dtypes)) + repr(list(df.index[:3]))).encode()).hexdigest()
 
 
 def gen_ops(rng, n_adm):
